@@ -93,12 +93,14 @@ def gen_case(rng, big=False):
     # 15%: the table lives in an ATTACHed database (schema="aux"), half of them with a different table of that name in main
     schema = "aux" if rng.random() < 0.15 else None
     return bc.new_case(t, ops, rng.choice(["always", "always", "auto"]), rng.random() < 0.3,
-                       tddl=rng.choice([None, None, True]), pr=pr, schema=schema, main_twin=rng.random() < 0.5)
+                       tddl=rng.choice([None, None, True]), pr=pr, schema=schema, main_twin=rng.random() < 0.5,
+                       identity=rng.choice([None, "always", "default", "autoincrement"]))
 
 
 def input_of(case):
     return {"table": case["table"], "ops": case["ops"], "recreate": case["recreate"], "copy_from": case["copy_from"],
-            "tddl": case.get("tddl"), "pr": case.get("pr"), "schema": case.get("schema"), "main_twin": case.get("main_twin")}
+            "tddl": case.get("tddl"), "pr": case.get("pr"), "schema": case.get("schema"), "main_twin": case.get("main_twin"),
+            "identity": case.get("identity")}
 
 
 def kind_of(why):
@@ -149,6 +151,8 @@ def one(ctx, case, pending):
     for o in case["ops"]:
         ctx.hist("op", o["op"])
     ctx.hist("recreated", "createTmp" in r["stmts"])
+    if case.get("copy_from"):
+        ctx.hist("copy_from_pk_declared_with", case.get("identity") or "plain column")
     ctx.hist("schema", "%s%s" % (case.get("schema") or "main", " + same name in main" if case.get("main_twin") else ""))
     ctx.hist("partial_indexes", sum(1 for i in case["table"]["indexes"] if i.get("where")))
     if applicable(r) and r["before"]["orig"]["rows"]:
@@ -317,7 +321,8 @@ def replay(ctx, case):
         c, r, why = run_battery_item(ctx, inp["battery"])
         return {"impl": bc.brief(r), "sql_before": r["sql_before"], "sql_after": r["sql_after"], "spec": {"holds": not why, "why": why}}
     c = bc.new_case(inp["table"], inp["ops"], inp.get("recreate", "always"), inp.get("copy_from", False),
-                    tddl=inp.get("tddl"), pr=inp.get("pr"), schema=inp.get("schema"), main_twin=inp.get("main_twin"))
+                    tddl=inp.get("tddl"), pr=inp.get("pr"), schema=inp.get("schema"), main_twin=inp.get("main_twin"),
+                    identity=inp.get("identity"))
     r = bc.run_impl(c)
     m = ctx.drv.ask1(bc.model_op(c, r))
     out = {"impl": bc.brief(r), "model": {"stmts": m.get("stmts"), "outcome": m.get("outcome")}, "differences": bc.compare(c, r, m)}
